@@ -15,6 +15,13 @@ import (
 // choices are made up front from the seed; the interleaving itself is the
 // scheduler's.
 func runConcurrent(r *rt.Run, w *World, t *rt.Trace) {
+	var fin chan struct{}
+	defer func() {
+		// a stuck lifecycle call (panic(hang)) must not leave the writer goroutine logging
+		if fin != nil && w.dead.Load() {
+			<-fin
+		}
+	}()
 	ids := []string{"t1", "t2"}[:1+r.Rand.Intn(2)]
 	tasks := map[string]Shape{}
 	for _, id := range ids {
@@ -58,10 +65,13 @@ func runConcurrent(r *rt.Run, w *World, t *rt.Trace) {
 
 	tr := w.Begin(t, tasks, "conc")
 	var done atomic.Int64
-	fin := make(chan struct{})
+	fin = make(chan struct{})
 	go func() {
 		defer close(fin)
 		for _, wo := range wops {
+			if w.dead.Load() {
+				return
+			}
 			op := wo.op
 			ps, lines, enc := tr.mkPoints(op.Pts)
 			first := tr.nw + 1
@@ -71,7 +81,9 @@ func runConcurrent(r *rt.Run, w *World, t *rt.Trace) {
 			tr.t.Event("WrRet", rt.M{"first": first, "via": via, "ret": ret})
 			if op.Sync {
 				upto := tr.nw
-				w.Sync()
+				if !w.Sync() {
+					return
+				}
 				tr.t.Event("SyncUpto", rt.M{"upto": upto})
 			}
 			done.Add(1)
